@@ -54,10 +54,10 @@ pub fn corpus(thorough: bool) -> Vec<Job> {
 			}
 		}
 		if f == F::Toml {
-			// sizes around the 2 MiB cut-off of TOML detection from a reader (the YAML trial gives up at the quoted key on line 2, long before the end)
+			// sizes around the 2 MiB cut-off of TOML detection from a reader (the YAML trial fails on line 2; the comments keep libyaml's scanner from running ahead into the long line)
 			let sizes: &[usize] = if thorough { &[1_999_999, 2_000_000, 2_000_001, 2_050_000, 2_097_150, 2_097_151] } else { &[2_000_001, 2_097_151] };
 			for &size in sizes {
-				let mut s = String::from("[t]\n\"a\" = 1\nk = \"");
+				let mut s = String::from("[t]\na = 1 # c\nb = 2 # c\nk = \"");
 				let pad = size - s.len() - 2;
 				s.push_str(&"z".repeat(pad));
 				s.push_str("\"\n");
